@@ -489,3 +489,155 @@ def _loop_body(cfg, bb):
     if not loops:
         return {bb}
     return min(loops, key=len)
+
+
+# ---------------------------------------------------------------------------------------------
+# R-BUILDER-BAL (C05): sequence / string builders and catch points opened by emitted code are closed by it
+
+BUILDERS = {
+    "sequence": ({"SequenceStart"}, {"SequenceToList", "SequenceToTuple"}),
+    "string": ({"StringStart"}, {"StringFinish"}),
+}
+TRY_OPEN, TRY_CLOSE = {"TryStart"}, {"TryEnd"}
+
+
+def rule_builder_bal(cx, tier):
+    r = RuleResult("R-BUILDER-BAL", "the code a Compiler method emits opens and closes the VM's builder stacks in pairs: on "
+                                    "every non-error path through the method each emitted SequenceStart is followed by the "
+                                    "emission of SequenceToList/SequenceToTuple and each StringStart by StringFinish (no "
+                                    "finisher without its opener, no net effect per loop iteration), and a TryStart is "
+                                    "followed by a TryEnd emission before the method returns")
+    from .enc import Writer
+    w = Writer(cx)
+    emit = (COMP + "push_op", COMP + "push_op_without_span")
+    n_sites = 0
+    insts = []
+    for fn in w.fns:
+        if fn.qual in w.prim:
+            continue
+        ev = {}
+        for c in fn.calls():
+            if c.short not in emit or len(c.args) < 2:
+                continue
+            ops = w.op_variants(fn, c.args[1])
+            if not ops:
+                continue
+            for name, (op_open, op_close) in BUILDERS.items():
+                if ops <= op_open:
+                    ev[c.bb] = (name, +1)
+                elif ops <= op_close:
+                    ev[c.bb] = (name, -1)
+                elif ops & (op_open | op_close):
+                    ev[c.bb] = (name, None)
+            if ops <= TRY_OPEN:
+                ev[c.bb] = ("try", +1)
+            elif ops <= TRY_CLOSE:
+                ev[c.bb] = ("try", -1)
+        if ev:
+            # the patch of the catch-entry placeholder that follows a TryStart splits the emitted code into the part
+            # executed when the try block completes and the part executed when an error was caught
+            du = cx.du(fn)
+            for bb, e in list(ev.items()):
+                if e != ("try", +1):
+                    continue
+                b = fn.call_at(bb).target
+                ph = None
+                for _ in range(6):
+                    c2 = fn.call_at(b) if b is not None else None
+                    if c2 is None:
+                        break
+                    if c2.short == COMP + "push_offset_placeholder":
+                        ph = c2
+                        break
+                    b = c2.target
+                if ph is None:
+                    continue
+                for c2 in fn.calls():
+                    if c2.short == COMP + "update_offset_placeholder" and len(c2.args) > 1:
+                        l = op_base(c2.args[1])
+                        rr = du.root(l, through_calls=("Try::branch",)) if l is not None else None
+                        if rr is not None and rr[0] == "call" and rr[1].bb == ph.bb:
+                            ev[c2.bb] = ("try", 0)
+            insts.append((fn, ev))
+            n_sites += len(ev)
+    r.analysed = {"functions_emitting_builder_ops": len(insts), "builder_op_sites": n_sites}
+    r.floor("functions emitting builder / try ops", len(insts), 4)
+    r.floor("builder / try op emission sites", n_sites, 11)
+    for fn, ev in insts:
+        r.instances += 1
+        r.nontrivial += 1
+        ex = Explorer(cx, fn)
+        bad = []
+        undecided = []
+        LIMIT = 4
+
+        def transfer(bb, st, ev=ev):
+            seq, strn, tr, rcls = st
+            e = ev.get(bb)
+            if e is not None:
+                name, d = e
+                if d is None:
+                    undecided.append(f"opcode at line {line_of(fn, bb)} may or may not be a {name} builder op")
+                    return None
+                if name == "sequence":
+                    seq = seq + d if seq != "T" else "T"
+                elif name == "string":
+                    strn = strn + d if strn != "T" else "T"
+                elif d > 0:
+                    tr = "open"
+                elif d < 0:
+                    tr = {"open": "closed-normal", "catch-open": "closed", "closed-normal": "closed-normal",
+                          "closed": "closed", "normal-unclosed": "normal-unclosed"}.get(tr, "stray")
+                else:       # the catch entry
+                    tr = "catch-open" if tr == "closed-normal" else ("normal-unclosed" if tr == "open" else tr)
+            cls = ret_class_of_block(cx, fn, bb)
+            if cls is not None:
+                rcls = cls
+            if seq != "T" and abs(seq) > LIMIT:
+                seq = "T"
+            if strn != "T" and abs(strn) > LIMIT:
+                strn = "T"
+            return (seq, strn, tr, rcls)
+
+        def at_exit(bb, st, pathf):
+            seq, strn, tr, rcls = st
+            if rcls == "err":
+                return
+            for name, v in (("sequence", seq), ("string", strn)):
+                if v != 0 and not any(b[0] == name and b[1] == v for b in bad):
+                    bad.append((name, v, bb, pathf()))
+            if tr in ("open", "stray", "normal-unclosed", "catch-open", "closed-normal") and \
+                    not any(b[0] == "try" and b[1] == tr for b in bad):
+                bad.append(("try", tr, bb, pathf()))
+
+        n = ex.run((0, 0, None, None), transfer, at_exit)
+        if ex.truncated:
+            undecided.append("state space truncated")
+        verdict = "balanced"
+        for name, v, bb, path in bad:
+            verdict = "violation"
+            if name == "try":
+                slot = "try:" + v
+                msg = {"open": "a non-error return is reachable after emitting TryStart without emitting TryEnd",
+                       "closed-normal": "the catch entry of the emitted TryStart is never patched",
+                       "normal-unclosed": "no TryEnd is emitted between TryStart and the catch entry: the catch point stays "
+                                          "registered after the try block has completed, so a later error jumps back into "
+                                          "this catch block",
+                       "catch-open": "no TryEnd is emitted after the catch entry: the catch point stays registered while "
+                                     "the catch block runs",
+                       "stray": "TryEnd is emitted on a path that has not emitted TryStart"}[v]
+            elif v == "T":
+                slot = f"{name}:loop"
+                msg = f"the number of open {name} builders changes on every iteration of a loop"
+            else:
+                slot = f"{name}:{v:+d}"
+                msg = (f"a non-error return is reachable with {v:+d} {name} builder(s) left open by the emitted code: the VM's "
+                       f"builder stack is unbalanced (stale builder, or 'missing builder' fault)")
+            r.add(Finding("R-BUILDER-BAL", fn.qual, slot, msg, fn.file, line_of(fn, bb),
+                          [f"bb{b} {fn.file}:{line_of(fn, b)}" + (f" emits {ev[b][0]} {'open' if ev[b][1] and ev[b][1] > 0 else 'close'}" if b in ev else "") for b in path][-40:]))
+        if undecided:
+            verdict = "undecided" if verdict == "balanced" else verdict
+            r.undecided.append(f"{fn.qual}: {'; '.join(sorted(set(undecided)))}")
+        r.sample({"fn": fn.qual, "sites": {line_of(fn, b): f"{e[0]}{'+' if (e[1] or 0) > 0 else ('-' if e[1] else '|catch-entry')}" for b, e in ev.items()},
+                  "states": n, "verdict": verdict})
+    return r
